@@ -109,6 +109,24 @@ def place_bindings(prog, src, wrapper):
     return p, flat_bind
 
 
+_FALSY = {"e0": 0, "e1": "", "e2": None}
+
+
+def _falsify(prog):
+    """Replace the tokens ['bound', e] and ['bound-outer', e] by a falsy value per input name, at every nesting level."""
+    p = copy.deepcopy(prog)
+
+    def rec(level):
+        if level.get("bind"):
+            level["bind"] = {k: (_FALSY.get(k.split("_")[0], 0) if isinstance(v, list) and v and v[0] in ("bound", "bound-outer") else v) for k, v in level["bind"].items()}
+        for sp in level["nodes"]:
+            if sp["kind"] == "graph":
+                rec(sp["inner"])
+
+    rec(p)
+    return p
+
+
 def observe(prog, inputs, runner):
     h = H()
     try:
@@ -203,16 +221,25 @@ def run_config(acc, shape, src, od, S, tier):
         plans.append(("d2-inside", inner_sub, "w1"))
     w3 = wrap(w2, ["w2"], "w3")
     plans.append(("d3", w3, "w3"))
-    for runner in ("sync", "async"):
+    has_b = any(v in ("Bi", "Bo", "Bio") for v in src.values())
+    for runner, falsy in [(r, f) for r in ("sync", "async") for f in ((False, True) if has_b else (False,))]:
+        if falsy and runner == "async" and tier == "quick":
+            continue
         fb = {e: (["bound-outer", e] if src[e] == "Bio" else ["bound", e]) for e in exts if src[e] in ("Bi", "Bo", "Bio", "DBi")}
         fprog = dict(flat, bind=fb) if fb else flat
+        if falsy:
+            # the values bound on the OUTER graph (and the only value of a singly bound input) are falsy / None;
+            # a value bound on the inner graph under an outer binding stays a recognisable term
+            fprog = _falsify(fprog)
         ref = observe(fprog, provided, runner)
         acc.evaluations += 1
         for pname, nested, wrapper in plans:
             if runner == "async" and pname in ("d3", "d2-around") and tier == "quick":
                 continue
             np_, _ = place_bindings(nested, src, wrapper)
-            for rename in (False, True, "swap"):
+            if falsy:
+                np_ = _falsify(np_)
+            for rename in ((False,) if falsy else (False, True, "swap")):
                 rn_in, rn_out = {}, {}
                 cand = np_
                 if rename == "swap":
@@ -255,14 +282,14 @@ def run_config(acc, shape, src, od, S, tier):
                 ins = {rn_in.get(k, k): v for k, v in provided.items()}
                 got = observe(cand, ins, runner)
                 acc.evaluations += 1
-                key = (tuple(shape), tuple(sorted(src.items())), tuple(sorted(od)), S, pname, rename, runner)
+                key = (tuple(shape), tuple(sorted(src.items())), tuple(sorted(od)), S, pname, rename, runner, falsy)
                 acc.key(key)
                 vs = compare(ref, got, rn_in, rn_out)
                 acc.outcomes[(pname, rename, "ok" if not vs else vs[0][0])] += 1
                 for sym, msg in vs:
                     placement = sorted(set(src.values()))
                     acc.violation(
-                        {"symptom": sym, "renamed": rename, "bindings": [b for b in placement if b.startswith("B")], "upstream_default": bool(od)},
+                        {"symptom": sym, "renamed": rename, "bindings": [b for b in placement if b.startswith("B")], "upstream_default": bool(od), **({"falsy_bound_values": True} if falsy else {})},
                         {"flat": fprog, "nested": cand, "inputs": ins, "runner": runner, "rn_in": rn_in, "rn_out": rn_out, "flat_inputs": provided},
                         f"{pname} (wrapped {ids}, sources {src}, renamed={rename}): {msg}",
                         size=len(repr(cand)),
@@ -327,6 +354,30 @@ def _repeated_runs(acc, variant):
                     break
 
 
+OPTION_LIKE_NAMES = ["values", "select", "max_iterations", "entrypoint", "on_missing", "on_internal_override", "error_handling", "event_processors", "graph", "max_concurrency", "map_over", "clone", "self", "runner", "kwargs"]
+
+
+def option_like_names(acc):
+    """An inner input may carry any legal name - also one that looks like an option of run(): the value addressed to it must
+    reach the inner function exactly as in the flat graph (depth 1 and 2, both runners)."""
+    for nm in OPTION_LIKE_NAMES:
+        flat = T.prog([T.fn("f", [nm], ["a0"]), T.fn("g", ["a0"], ["b0"])])
+        w1 = wrap(flat, ["f"], "w1")
+        w2 = wrap(w1, ["w1"], "w2")
+        for runner in ("sync", "async"):
+            ref = observe(flat, {nm: ["prov", nm]}, runner)
+            acc.evaluations += 1
+            if ref.get("status") != "completed":
+                acc.observations[f"flat graph with an input named {nm!r} does not complete (not judged)"] += 1
+                continue
+            for pname, prog in (("d1", w1), ("d2", w2)):
+                got = observe(prog, {nm: ["prov", nm]}, runner)
+                acc.evaluations += 1
+                acc.key(("option-like-name", nm, pname, runner))
+                for sym, msg in compare(ref, got, {}, {}):
+                    acc.violation({"symptom": sym, "option_like_input_name": True}, {"option_like_names": nm, "runner": runner}, f"inner input named {nm!r}, {pname}, {runner}: {msg}")
+
+
 def shards(tier, seed):
     k = 64 if tier == "quick" else 256
     return [(tier, seed, s, k) for s in range(k)]
@@ -337,6 +388,8 @@ def run_shard(shard):
     acc = Acc()
     if s == 0:
         repeated_runs(acc)
+    if s == 1:
+        option_like_names(acc)
     for ci, (shape, src, od, S) in enumerate(configs(tier, seed)):
         if ci % k != s:
             continue
@@ -351,6 +404,10 @@ def coverage_extra(acc, tier, seed):
 
 
 def replay(rep):
+    if "option_like_names" in rep:
+        acc = Acc()
+        option_like_names(acc)
+        return [v["message"] for v in acc.violations.values()]
     if "repeated_runs" in rep:
         acc = Acc()
         repeated_runs(acc)
